@@ -93,10 +93,13 @@ def accesses(func: ast.AST, qual: str, attrs: Optional[Set[str]] = None, receive
         if isinstance(n, ast.Assign):
             for tgt in n.targets:
                 flat = tgt.elts if isinstance(tgt, (ast.Tuple, ast.List)) else [tgt]
-                for t in flat:
+                pairwise = (isinstance(tgt, (ast.Tuple, ast.List)) and isinstance(n.value, (ast.Tuple, ast.List))
+                            and len(tgt.elts) == len(n.value.elts))
+                for idx, t in enumerate(flat):
                     tr = tracked(t) if isinstance(t, ast.Attribute) else None
                     if tr:
-                        kind = "rebind-empty" if (not isinstance(tgt, (ast.Tuple, ast.List)) and _is_empty_container(n.value)) else "assign"
+                        val = n.value.elts[idx] if pairwise else (None if isinstance(tgt, (ast.Tuple, ast.List)) else n.value)
+                        kind = "rebind-empty" if (val is not None and _is_empty_container(val)) else "assign"
                         out.append(Access(qual, tr[1], kind, n, tr[2], tr[0]))
                     elif isinstance(t, ast.Subscript):
                         tr = tracked(t.value)
@@ -114,9 +117,6 @@ def accesses(func: ast.AST, qual: str, attrs: Optional[Set[str]] = None, receive
                 tr = tracked(n.target.value)
                 if tr:
                     out.append(Access(qual, tr[1], "setitem", n, tr[2], tr[0]))
-            elif isinstance(n.target, ast.Name) and n.target.id in alias:
-                r, a = alias[n.target.id]
-                out.append(Access(qual, a, "augassign", n, True, r))
         elif isinstance(n, ast.Delete):
             for t in n.targets:
                 tr = tracked(t) if isinstance(t, ast.Attribute) else None
